@@ -34,7 +34,7 @@ M.update({
     "dense_remove_no_redirect": ("src/storage/storages.rs", "        unsafe { self.data_id.get_unchecked_mut(last as usize) }.write(did);\n", "", "C04"),
     "flagged_remove_no_event": ("src/storage/flagged.rs", "    unsafe fn remove(&mut self, id: Index) -> C {\n        if self.emit_event() {\n            self.channel\n                .get_mut()\n                .single_write(ComponentEvent::Removed(id));\n        }\n", "    unsafe fn remove(&mut self, id: Index) -> C {\n", "C12"),
     "deref_flagged_eager_modified": ("src/storage/deref_flagged.rs", "        let emit = self.emit_event();\n        FlaggedAccessMut {", "        let emit = self.emit_event();\n        if emit {\n            self.channel.single_write(ComponentEvent::Modified(id));\n        }\n        FlaggedAccessMut {", "C12"),
-    "flagged_insert_ignores_emission_flag": ("src/storage/flagged.rs", "    unsafe fn insert(&mut self, id: Index, comp: C) {\n        if self.emit_event() {", "    unsafe fn insert(&mut self, id: Index, comp: C) {\n        if true {", "C12"),
+    "flagged_insert_ignores_emission_flag": ("src/storage/flagged.rs", "        // inserted, so no `Inserted` event may be emitted for it.\n        if self.emit_event() {", "        // inserted, so no `Inserted` event may be emitted for it.\n        if true {", "C12"),
     "flagged_drop_bypasses_event": ("src/storage/flagged.rs", "    unsafe fn remove(&mut self, id: Index) -> C {\n        if self.emit_event() {\n            self.channel\n                .get_mut()\n                .single_write(ComponentEvent::Removed(id));\n        }", "    unsafe fn drop(&mut self, id: Index) {\n        unsafe { self.storage.drop(id) };\n    }\n\n    unsafe fn remove(&mut self, id: Index) -> C {\n        if self.emit_event() {\n            self.channel\n                .get_mut()\n                .single_write(ComponentEvent::Removed(id));\n        }", "C12"),
     "restrict_read_get_other_no_alive": ("src/storage/restrict.rs", "    pub fn get_other(&self, entity: Entity) -> Option<&C> {\n        if self.bitset.contains(entity.id()) && self.entities.is_alive(entity) {\n            // SAFETY:We just checked the mask.\n            Some(unsafe { self.storage.get(entity.id()) })\n        } else {\n            None\n        }\n    }\n}\n\nimpl<'rf, C> PairedStorageWriteShared", "    pub fn get_other(&self, entity: Entity) -> Option<&C> {\n        if self.bitset.contains(entity.id()) {\n            // SAFETY:We just checked the mask.\n            Some(unsafe { self.storage.get(entity.id()) })\n        } else {\n            None\n        }\n    }\n}\n\nimpl<'rf, C> PairedStorageWriteShared", "C03,C13"),
     "vec_clean_inverted_mask": ("src/storage/storages.rs", "            if has.contains(i as u32) {\n                // drop in place", "            if !has.contains(i as u32) {\n                // drop in place", "C08"),
@@ -85,6 +85,11 @@ M.update({
     "remove_on_drop_guard_removed": ("src/storage/mod.rs", "            let guard = RemoveOnDrop(&mut self.data, id);\n            guard.0.mask.add(id);\n            core::mem::forget(guard);", "            let guard = RemoveOnDrop(&mut self.data, id);\n            let g = core::mem::ManuallyDrop::new(guard);\n            let _ = &g;\n            self.data.mask.add(id);", "C08"),
 })
 
+M.update({
+    "revert_fix_c17_failing_batch_recycles_prefix": ("src/world/entity.rs", "                self.cache.extend(delete[..index].iter().map(|e| e.0));\n                return Err((self.del_err(entity), index));", "                return Err((self.del_err(entity), index));", "C17,C01"),
+    "revert_fix_c12_inserted_after_insert": ("src/storage/flagged.rs", "        // SAFETY: Requirements passed to caller.\n        unsafe { self.storage.insert(id, comp) };\n        // NOTE: The event is written only once the insertion succeeded.", "        if self.emit_event() {\n            self.channel\n                .get_mut()\n                .single_write(ComponentEvent::Inserted(id));\n        }\n        // SAFETY: Requirements passed to caller.\n        unsafe { self.storage.insert(id, comp) };\n        return;\n        // NOTE: The event is written only once the insertion succeeded.", "C12"),
+})
+
 
 def sh(cmd, **kw):
     return subprocess.run(cmd, shell=True, **kw)
@@ -102,7 +107,7 @@ def apply(wt, name):
     p = os.path.join(wt, f)
     s = open(p).read()
     if old not in s:
-        raise SystemExit("mutant %s: anchor not found in %s" % (name, f))
+        raise RuntimeError("mutant %s: anchor not found in %s" % (name, f))
     open(p, "w").write(s.replace(old, new, 1))
 
 
@@ -118,7 +123,11 @@ def main():
         tier = a[3] if len(a) > 3 else "quick"
         for name in names:
             ensure_wt()
-            apply(WT, name)
+            try:
+                apply(WT, name)
+            except RuntimeError as e:
+                print("%-32s - rc=- ANCHOR-MISSING %s" % (name, e))
+                continue
             props = (a[2] if len(a) > 2 and a[2] != "-" else M[name][3]).split(",")
             for p in props:
                 env = dict(os.environ, VERIF_REPO=WT)
